@@ -542,6 +542,10 @@ def validate_trace_chunks(module, trace_path, invariants=(), name="trace", max_r
     validated by separate TLC processes in parallel (executions are independent: each starts from the initial state)."""
     lines = open(trace_path).read().splitlines()
     starts = [i for i, ln in enumerate(lines) if is_start(json.loads(ln))]
+    workers = max(chunks, 1)
+    # TLC handles behaviours of at most 65535 states, and specifications whose state grows along the trace slow down: no
+    # piece longer than 20000 lines
+    chunks = max(chunks, -(-len(lines) // 20000))
     if len(starts) < 2 * chunks or chunks <= 1:
         return validate_trace_resync(module, trace_path, invariants, name, max_rejections, is_start, constants, timeout)
     per = len(lines) // chunks
@@ -556,7 +560,7 @@ def validate_trace_chunks(module, trace_path, invariants=(), name="trace", max_r
         with open(pth, "w") as f:
             f.write("\n".join(lines[cuts[k]:cuts[k + 1]]) + "\n")
         parts.append((pth, cuts[k]))
-    with ThreadPoolExecutor(max_workers=len(parts)) as ex:
+    with ThreadPoolExecutor(max_workers=min(len(parts), max(workers, 12))) as ex:
         res = list(ex.map(lambda pc: validate_trace_resync(module, pc[0], invariants, "%s-c%d" % (name, parts.index(pc)),
                                                            max_rejections, is_start, constants, timeout), parts))
     out = {"executions": 0, "rejections": [], "states": 0, "transitions": 0, "lines": len(lines)}
